@@ -249,9 +249,29 @@ C11saenger(c) ==
   LET bad == FirstIdx(c.calls, LAMBDA x : x[6] # SaengerOf(x[1], x[2], <<x[3], x[4], x[5]>>)) IN
   IF bad # 0 THEN <<"fail", "SaengerIffDefined", c.calls[bad]>> ELSE <<"ok">>
 
+\* the implementation's donor / acceptor / edge tables (public module constants of rnapolis.tertiary), entry by
+\* entry against the tables of Annot.tla: the measured contacts of every case are classified by the latter, so a
+\* table of the code that differs makes it count contacts the statement does not (or miss some it does)
+ChemTable(c) ==
+  LET S(x) == { x[k] : k \in Idx(x) }
+      donors    == { <<L, a>> : L \in DOMAIN Donors, a \in UNION { Donors[M] : M \in DOMAIN Donors } }
+      wantD     == { p \in donors : p[2] \in Donors[p[1]] }
+      wantA     == { p \in { <<L, a>> : L \in DOMAIN BaseAcceptors, a \in UNION { BaseAcceptors[M] : M \in DOMAIN BaseAcceptors } } :
+                       p[2] \in BaseAcceptors[p[1]] }
+      wantE     == { <<L, a, e>> : L \in DOMAIN EdgeOf, a \in UNION { DOMAIN EdgeOf[M] : M \in DOMAIN EdgeOf }, e \in {"W", "H", "S"} }
+      wantEdges == { t \in wantE : t[2] \in DOMAIN EdgeOf[t[1]] /\ t[3] \in EdgeOf[t[1]][t[2]] } IN
+  IF c.err # "" THEN <<"fail", "ContactTablesConform", c.err>>
+  ELSE IF { <<x[1], x[2]>> : x \in S(c.donors) } # wantD THEN <<"fail", "ContactTablesConform", "donors">>
+  ELSE IF { <<x[1], x[2]>> : x \in S(c.acceptors) } # wantA THEN <<"fail", "ContactTablesConform", "acceptors">>
+  ELSE IF { <<x[1], x[2], x[3]>> : x \in S(c.edges) } # wantEdges THEN <<"fail", "ContactTablesConform", "edges">>
+  ELSE IF S(c.phosphate) # PhosphateAcceptors THEN <<"fail", "ContactTablesConform", "phosphate acceptors">>
+  ELSE IF S(c.ribose) # RiboseAcceptors THEN <<"fail", "ContactTablesConform", "ribose acceptors">>
+  ELSE <<"ok">>
+
 \* ------------------------------------------------------------------ dispatch
 Verdict(c) ==
-  IF c.kind = "table" THEN C11table(c)
+  IF c.kind = "chem" THEN ChemTable(c)
+  ELSE IF c.kind = "table" THEN C11table(c)
   ELSE IF c.kind = "saenger" THEN C11saenger(c)
   ELSE IF Family = "C03" THEN C03ann(c)
   ELSE IF Family = "C04" THEN C04ann(c)
